@@ -3,6 +3,8 @@
 (* files over a pool of file kinds (text diffs with known counts, binary,   *)
 (* empty, absent, unparsable; with no / custom / stale pre-existing stats): *)
 (*   Exact, Additive, Idempotent, NonDestructive                            *)
+(* The stale statistics are deliberately inconsistent (lines changed # ins + del): a section      *)
+(* that is not analysed keeps and REPORTS exactly what it had.                                      *)
 EXTENDS Integers, Sequences, TLC, Json, Stats
 VARIABLES t, gen1, gen2      \* t: tree; gen1 = GenAll(t); gen2 = GenAll(gen1)  (computed once per state)
 NoTables == [none |-> [enc |-> [x \in {} |-> <<>>], dec |-> [x \in {} |-> 0]]]
@@ -11,7 +13,7 @@ Empty == JObj(<<>>)
 Custom == JObj(<< [k |-> <<120>>, v |-> JStr(<<121>>)],
                   [k |-> K_stats, v |-> JObj(<< [k |-> <<99,117,115,116,111,109>>, v |-> JInt(7)] >>)] >>)
 Stale == JObj(<< [k |-> K_stats, v |-> JObj(<< [k |-> K_ins, v |-> JInt(40)], [k |-> K_del, v |-> JInt(2)],
-                                               [k |-> K_lc, v |-> JInt(42)], [k |-> <<107>>, v |-> JInt(1)] >>)] >>)
+                                               [k |-> K_lc, v |-> JInt(45)], [k |-> <<107>>, v |-> JInt(1)] >>)] >>)
 PreMetas == {Empty, Custom, Stale}
 D(has, raw, type, le) == [has |-> has, raw |-> raw, type |-> type, le |-> le, codec |-> [fam |-> "none", tid |-> ""]]
 (* "@@ -1 +1,2 @@\n-a\n+b\n+c\n"  : 2 insertions, 1 deletion *)
